@@ -1,12 +1,16 @@
 #!/bin/sh
-# tools/benign_queue.sh : processes every ready benign change (ids listed in /var/tmp/benign_ready) not yet stored under /verif/benign; loops until /var/tmp/benign_stop exists
+# tools/benign_queue.sh <stream 0|1> : processes every ready benign change (ids listed in /var/tmp/benign_ready) not yet stored under /verif/benign;
+# two streams split the ids by parity of their position; loops until /var/tmp/benign_stop exists
 mkdir -p /verif/benign
+st=${1:-0}
 while [ ! -e /var/tmp/benign_stop ]; do
-  did=0
+  did=0; pos=0
   for id in $(cat /var/tmp/benign_ready 2>/dev/null); do
+    pos=$((pos+1))
+    [ $((pos % 2)) = "$st" ] || continue
     for k in 1 2 3; do
       if [ -e /tmp/benign_out/$id/$k/patch.diff ] && [ ! -e /verif/benign/${id}_$k/meta.json ]; then
-        python3 /verif/tools/try_benign.py $id $k >> /var/tmp/benign.log 2>&1
+        python3 /verif/tools/try_benign.py $id $k >> /var/tmp/benign_$st.log 2>&1
         did=1
       fi
     done
